@@ -4,6 +4,7 @@ import (
 	"fmt"
 	"go/token"
 	"go/types"
+	"regexp"
 	"sort"
 	"strings"
 
@@ -56,68 +57,75 @@ type boundsEntry struct {
 
 // reviewed table of bounds checks the compiler cannot discharge on today's tree: function|kind|expression
 var boundsTable = map[string]boundsEntry{
-	"verifyEncryptedSignatureMAC|IsSliceInBounds|sumHMAC(keys.m2, tomac, v)[:v.truncateLength()]": {"HMAC-SHA256 output is 32 bytes, truncateLength is 20 (rule P.ake-checks checks the constant)", nil},
-	"b64decode|IsSliceInBounds|msg[:msgLen]":                                                          {"base64 Decode returns n <= len(dst)", nil},
-	"*Conversation.processExtraSymmetricKeyTLV|IsSliceInBounds|t.tlvValue[:t.tlvLength]":             {"tlv.deserialize builds tlvValue as tlvsBytes[:tlvLength], so len(tlvValue) == tlvLength", nil},
-	"fragmentData|IsSliceInBounds|data[fragmentStart(i, fraglen):fragmentEnd(i, fraglen, l)]":        {"sender side: i*fraglen <= min((i+1)*fraglen, l) <= len(data) for i < numFragments (rule V.fragment-arith of C14)", nil},
-	"*Conversation.fragment|IsInBounds|fragmentSeparator[0]":                                          {"package-level one-element slice (rule E.globals: never modified)", nil},
-	"ExtractFixedData|IsSliceInBounds|d[l:]":                                                          {"len(d) >= l is tested; l is a caller-supplied length, not message data", []string{"passed:($l <= len($d))"}},
-	"DeserializeShort|IsInBounds|":                                                                    {"documented to panic on short input; every library caller tests the length first (Extract*)", nil},
-	"DeserializeWord|IsInBounds|":                                                                     {"documented to panic on short input; every library caller tests the length first (Extract*)", nil},
-	"DeserializeLong|IsInBounds|":                                                                     {"documented to panic on short input; every library caller tests the length first (Extract*)", nil},
-	"ExtractInstanceTags|IsInBounds|bytes.Split(header, fragmentSeparator)[0]":                        {"bytes.Split returns at least one element", nil},
-	"otrV3.parseFragmentPrefix|IsInBounds|bytes.Split(header, fragmentSeparator)[0]":                  {"bytes.Split returns at least one element", nil},
-	"*macKeyHistory.deleteKeysAt|IsInBounds|h.items[del[j]]":                                          {"indices collected by the callers while ranging over h.items", nil},
-	"*macKeyHistory.deleteKeysAt|IsSliceInBounds|h.items[:l-1]":                                       {"l = len(h.items) >= 1 whenever an index was collected", nil},
-	"calculateDHSessionKeys|IsSliceInBounds|h(sendbyte, secbytes, sha)[:v.keyLength()]":               {"SHA-1 output (20 bytes) >= key length 16", nil},
-	"calculateDHSessionKeys|IsSliceInBounds|h(recvbyte, secbytes, sha)[:v.keyLength()]":               {"SHA-1 output (20 bytes) >= key length 16", nil},
-	"calculateAKEKeys|IsSliceInBounds|h(0x00, secbytes, sha)[:8]":                                     {"SHA-256 output is 32 bytes", nil},
-	"calculateAKEKeys|IsSliceInBounds|keys[:16]":                                                      {"SHA-256 output is 32 bytes", nil},
-	"calculateAKEKeys|IsSliceInBounds|keys[16:]":                                                      {"SHA-256 output is 32 bytes", nil},
-	"*DSAPublicKey.Fingerprint|IsSliceInBounds|b[2:]":                                                 {"a non-nil serialisation starts with the 2-byte key type", nil},
-	"*DSAPrivateKey.Sign|IsSliceInBounds|out[20-len(rBytes):]":                                        {"r, s < q with q of 160 bits (own key)", nil},
-	"*DSAPrivateKey.Sign|IsSliceInBounds|out[len(out)-len(sBytes):]":                                  {"r, s < q with q of 160 bits (own key)", nil},
-	"encrypt|IsSliceInBounds|dst[:aes.BlockSize]":                                                     {"callers encrypt at least one MPI / key block; own data", nil},
-	"*DSAPrivateKey.Import|IsSliceInBounds|in[start+len(mpiStart):]":                                  {"start is the position of mpiStart found by bytes.Index", []string{"~passed:(bytes.Index(&& != -1)"}},
-	"*DSAPrivateKey.Import|IsSliceInBounds|in[:end]":                                                  {"end found by bytes.IndexFunc", nil},
-	"*DSAPrivateKey.Import|IsSliceInBounds|in[end:]":                                                  {"end found by bytes.IndexFunc", nil},
-	"revealSig.serialize|IsSliceInBounds|c.macSig[:v.truncateLength()]":                               {"own MAC (32 bytes) truncated to 20", nil},
-	"sig.serialize|IsSliceInBounds|c.macSig[:v.truncateLength()]":                                     {"own MAC (32 bytes) truncated to 20", nil},
-	"*dataMsg.deserializeUnsigned|IsSliceInBounds|msg[:len(msg)-len(in)]":                             {"in is a suffix of msg (only ever re-sliced forward)", nil},
-	"*dataMsg.deserialize|IsSliceInBounds|msg[len(c.serializeUnsignedCache):]":                        {"the cache is a prefix of msg", nil},
-	"*dataMsg.deserialize|IsSliceInBounds|msg[0:v.hashLength()]":                                      {"guarded by the length test added for D05", []string{"passed:(len($msg[len(dataMsg.serializeUnsignedCache):]) >= otrVersion.hashLength($v))"}},
-	"*dataMsg.deserialize|IsSliceInBounds|msg[len(c.authenticator):]":                                 {"authenticator is msg[0:hashLength]", nil},
-	"*dataMsg.deserialize|IsSliceInBounds|revKeysBytes[len(revKey):]":                                 {"len(revKeysBytes) >= hashLength tested in the loop", nil},
-	"*plainDataMsg.deserialize|IsSliceInBounds|msg[:nulPos]":                                          {"nulPos < len(msg) tested", nil},
-	"*plainDataMsg.deserialize|IsSliceInBounds|msg[nulPos+1:]":                                        {"nulPos < len(msg) tested", nil},
-	"*plainDataMsg.deserialize|IsSliceInBounds|tlvsBytes[4+int(atlv.tlvLength):]":                     {"tlv.deserialize succeeded: len(tlvsBytes) >= 4 + tlvLength", []string{"ok:(*tlv).deserialize"}},
-	"plainDataMsg.serialize|IsInBounds|c.tlvs[i]":                                                     {"i ranges over c.tlvs", nil},
-	"parseOTRQueryMessage|IsInBounds|versions[0]":                                                     {"len(msg) > len(queryMarker) tested", []string{"passed:(len($msg) > len(global:queryMarker))"}},
-	"*Conversation.receiveErrorMessage|IsSliceInBounds|message[len(errorMarker):]":                    {"reached only for messages with the error marker prefix (guessMessageType)", nil},
-	"removeOTRMsgEnvelope|IsSliceInBounds|msg[len(msgMarker) : len(msg)-1]":                           {"decode tests len(encoded) > len(msgMarker) first (D18)", nil},
-	"decode|IsSliceInBounds|":                                                                         {"inlined removeOTRMsgEnvelope, guarded by the length test added for D18", []string{"passed:(len($encoded) > len(global:msgMarker))"}},
-	"*Conversation.receiveDecoded|IsInBounds|messageHeader[2]":                                        {"a successfully parsed header has 3 (v2) or 11 (v3) bytes", []string{"ok:(*Conversation).parseMessageHeader"}},
-	"messageHandlerForTLV|IsInBounds|tlvHandlers[t.tlvType]":                                          {"type tested against len(tlvHandlers)", []string{"passed:(tlv.tlvType < uint16(len(global:tlvHandlers)))"}},
-	"*Conversation.processTLVs|IsInBounds|":                                                           {"inlined messageHandlerForTLV", nil},
-	"toSmpMessage1Q|IsSliceInBounds|t.tlvValue[:nulPos]":                                              {"nulPos found by IndexByte", []string{"passed:(bytes.IndexByte(tlv.tlvValue, 0) != -1)"}},
-	"toSmpMessage1Q|IsSliceInBounds|t.tlvValue[(nulPos + 1):]":                                        {"nulPos found by IndexByte", []string{"passed:(bytes.IndexByte(tlv.tlvValue, 0) != -1)"}},
-	"extractWhitespaceTag|IsSliceInBounds|message[wsPos+len(whitespaceTagHeader):]":                   {"called only for messages that contain the tag header (guessMessageType)", nil},
-	"extractWhitespaceTag|IsSliceInBounds|message[:wsPos]":                                            {"called only for messages that contain the tag header (guessMessageType)", nil},
-	"*keyManagementContext.wipe|IsInBounds|c.oldMACKeys[i]":                                           {"i ranges over the slice", nil},
-	"*keyManagementContext.wipe|IsInBounds|":                                                          {"inlined loops over own slices", nil},
-	"*counterHistory.wipe|IsInBounds|h.counters[i]":                                                   {"i ranges over the slice", nil},
-	"*macKeyHistory.wipe|IsInBounds|h.items[i]":                                                       {"i ranges over the slice", nil},
-	"*macKeyHistory.forgetMACKeysForOurKey|IsInBounds|":                                               {"inlined deleteKeysAt", nil},
-	"*macKeyHistory.forgetMACKeysForOurKey|IsSliceInBounds|":                                          {"inlined deleteKeysAt", nil},
-	"*macKeyHistory.forgetMACKeysForTheirKey|IsInBounds|":                                             {"inlined deleteKeysAt", nil},
-	"*macKeyHistory.forgetMACKeysForTheirKey|IsSliceInBounds|":                                        {"inlined deleteKeysAt", nil},
-	"*Conversation.calcXb|IsSliceInBounds|":                                                           {"inlined encrypt", nil},
-	"*Conversation.dhCommitMessage|IsSliceInBounds|":                                                  {"inlined encrypt", nil},
-	"*Conversation.sigMessage|IsSliceInBounds|":                                                       {"inlined helper on own data", nil},
-	"*Conversation.fragment|IsSliceInBounds|":                                                         {"inlined fragmentData", nil},
-	"sexp.peek|IsInBounds|":                                                                           {"inlined bufio.Reader internals", nil},
-	"sexp.expect|IsInBounds|":                                                                         {"inlined bufio.Reader internals", nil},
-	"initTLVHandlers|IsInBounds|*":                                                                    {"constant indices 0..8 into the 9-element handler table", nil},
+	"verifyEncryptedSignatureMAC|IsSliceInBounds|sumHMAC(_.m2,_,_)[:_.truncateLength()]": {"HMAC-SHA256 output is 32 bytes, truncateLength is 20 (rule P.ake-checks checks the constant)", nil},
+	"b64decode|IsSliceInBounds|_[:_]": {"base64 Decode returns n <= len(dst)", nil},
+	"*Conversation.processExtraSymmetricKeyTLV|IsSliceInBounds|_.tlvValue[:_.tlvLength]": {"tlv.deserialize builds tlvValue as tlvsBytes[:tlvLength], so len(tlvValue) == tlvLength", nil},
+	"fragmentData|IsSliceInBounds|_[fragmentStart(_,_):fragmentEnd(_,_,_)]":              {"sender side: i*fraglen <= min((i+1)*fraglen, l) <= len(data) for i < numFragments (rule V.fragment-arith of C14)", nil},
+	"*Conversation.fragment|IsInBounds|fragmentSeparator[0]":                             {"package-level one-element slice (rule E.globals: never modified)", nil},
+	"ExtractFixedData|IsSliceInBounds|_[_:]":                                             {"len(d) >= l is tested; l is a caller-supplied length, not message data", []string{"passed:($l <= len($d))"}},
+	"DeserializeShort|IsInBounds|":                                                       {"documented to panic on short input; every library caller tests the length first (Extract*)", nil},
+	"DeserializeWord|IsInBounds|":                                                        {"documented to panic on short input; every library caller tests the length first (Extract*)", nil},
+	"DeserializeLong|IsInBounds|":                                                        {"documented to panic on short input; every library caller tests the length first (Extract*)", nil},
+	"ExtractInstanceTags|IsInBounds|bytes.Split(_,fragmentSeparator)[0]":                 {"bytes.Split returns at least one element", nil},
+	"otrV3.parseFragmentPrefix|IsInBounds|bytes.Split(_,fragmentSeparator)[0]":           {"bytes.Split returns at least one element", nil},
+	"*macKeyHistory.deleteKeysAt|IsInBounds|_.items[_[_]]":                               {"indices collected by the callers while ranging over h.items", nil},
+	"*macKeyHistory.deleteKeysAt|IsSliceInBounds|_.items[:_-1]":                          {"l = len(h.items) >= 1 whenever an index was collected", nil},
+	"calculateDHSessionKeys|IsSliceInBounds|h(_,_,_)[:_.keyLength()]":                    {"SHA-1 output (20 bytes) >= key length 16", nil},
+	"calculateAKEKeys|IsSliceInBounds|h(0x00,_,_)[:8]":                                   {"SHA-256 output is 32 bytes", nil},
+	"calculateAKEKeys|IsSliceInBounds|_[:16]":                                            {"SHA-256 output is 32 bytes", nil},
+	"calculateAKEKeys|IsSliceInBounds|_[16:]":                                            {"SHA-256 output is 32 bytes", nil},
+	"*DSAPublicKey.Fingerprint|IsSliceInBounds|_[2:]":                                    {"a non-nil serialisation starts with the 2-byte key type", nil},
+	"*DSAPrivateKey.Sign|IsSliceInBounds|_[20-len(_):]":                                  {"r, s < q with q of 160 bits (own key)", nil},
+	"*DSAPrivateKey.Sign|IsSliceInBounds|_[len(_)-len(_):]":                              {"r, s < q with q of 160 bits (own key)", nil},
+	"encrypt|IsSliceInBounds|_[:aes.BlockSize]":                                          {"callers encrypt at least one MPI / key block; own data", nil},
+	"*DSAPrivateKey.Import|IsSliceInBounds|_[_+len(_):]":                                 {"start is the position of mpiStart found by bytes.Index", []string{"~passed:(bytes.Index(&& != -1)"}},
+	"*DSAPrivateKey.Import|IsSliceInBounds|_[:_]":                                        {"end found by bytes.IndexFunc", nil},
+	"*DSAPrivateKey.Import|IsSliceInBounds|_[_:]":                                        {"end found by bytes.IndexFunc", nil},
+	"revealSig.serialize|IsSliceInBounds|_.macSig[:_.truncateLength()]":                  {"own MAC (32 bytes) truncated to 20", nil},
+	"sig.serialize|IsSliceInBounds|_.macSig[:_.truncateLength()]":                        {"own MAC (32 bytes) truncated to 20", nil},
+	"*dataMsg.deserializeUnsigned|IsSliceInBounds|_[:len(_)-len(_)]":                     {"in is a suffix of msg (only ever re-sliced forward)", nil},
+	"*dataMsg.deserialize|IsSliceInBounds|_[len(_.serializeUnsignedCache):]":             {"the cache is a prefix of msg", nil},
+	"*dataMsg.deserialize|IsSliceInBounds|_[0:_.hashLength()]":                           {"guarded by the length test added for D05", []string{"passed:(len($msg[len(dataMsg.serializeUnsignedCache):]) >= otrVersion.hashLength($v))"}},
+	"*dataMsg.deserialize|IsSliceInBounds|_[len(_.authenticator):]":                      {"authenticator is msg[0:hashLength]", nil},
+	"*dataMsg.deserialize|IsSliceInBounds|_[len(_):]":                                    {"len(revKeysBytes) >= hashLength tested in the loop", nil},
+	"*plainDataMsg.deserialize|IsSliceInBounds|_[:_]":                                    {"nulPos < len(msg) tested", nil},
+	"*plainDataMsg.deserialize|IsSliceInBounds|_[_+1:]":                                  {"nulPos < len(msg) tested", nil},
+	"*plainDataMsg.deserialize|IsSliceInBounds|_[4+int(_.tlvLength):]":                   {"tlv.deserialize succeeded: len(tlvsBytes) >= 4 + tlvLength", []string{"ok:(*tlv).deserialize"}},
+	"plainDataMsg.serialize|IsInBounds|_.tlvs[_]":                                        {"i ranges over c.tlvs", nil},
+	"parseOTRQueryMessage|IsInBounds|_[0]":                                               {"len(msg) > len(queryMarker) tested", []string{"passed:(len($msg) > len(global:queryMarker))"}},
+	"*Conversation.receiveErrorMessage|IsSliceInBounds|_[len(errorMarker):]":             {"reached only for messages with the error marker prefix (guessMessageType)", nil},
+	"removeOTRMsgEnvelope|IsSliceInBounds|_[len(msgMarker):len(_)-1]":                    {"decode tests len(encoded) > len(msgMarker) first (D18)", nil},
+	"decode|IsSliceInBounds|":                                                            {"inlined removeOTRMsgEnvelope, guarded by the length test added for D18", []string{"passed:(len($encoded) > len(global:msgMarker))"}},
+	"*Conversation.receiveDecoded|IsInBounds|_[2]":                                       {"a successfully parsed header has 3 (v2) or 11 (v3) bytes", []string{"ok:(*Conversation).parseMessageHeader"}},
+	"messageHandlerForTLV|IsInBounds|tlvHandlers[_.tlvType]":                             {"type tested against len(tlvHandlers)", []string{"passed:(tlv.tlvType < uint16(len(global:tlvHandlers)))"}},
+	"*Conversation.processTLVs|IsInBounds|":                                              {"inlined messageHandlerForTLV", nil},
+	"toSmpMessage1Q|IsSliceInBounds|_.tlvValue[:_]":                                      {"nulPos found by IndexByte", []string{"passed:(bytes.IndexByte(tlv.tlvValue, 0) != -1)"}},
+	"toSmpMessage1Q|IsSliceInBounds|_.tlvValue[(_+1):]":                                  {"nulPos found by IndexByte", []string{"passed:(bytes.IndexByte(tlv.tlvValue, 0) != -1)"}},
+	"extractWhitespaceTag|IsSliceInBounds|_[_+len(whitespaceTagHeader):]":                {"called only for messages that contain the tag header (guessMessageType)", nil},
+	"extractWhitespaceTag|IsSliceInBounds|_[:_]":                                         {"called only for messages that contain the tag header (guessMessageType)", nil},
+	"*keyManagementContext.wipe|IsInBounds|_.oldMACKeys[_]":                              {"i ranges over the slice", nil},
+	"*keyManagementContext.wipe|IsInBounds|":                                             {"inlined loops over own slices", nil},
+	"*counterHistory.wipe|IsInBounds|_.counters[_]":                                      {"i ranges over the slice", nil},
+	"*macKeyHistory.wipe|IsInBounds|_.items[_]":                                          {"i ranges over the slice", nil},
+	"*macKeyHistory.forgetMACKeysForOurKey|IsInBounds|":                                  {"inlined deleteKeysAt", nil},
+	"*macKeyHistory.forgetMACKeysForOurKey|IsSliceInBounds|":                             {"inlined deleteKeysAt", nil},
+	"*macKeyHistory.forgetMACKeysForTheirKey|IsInBounds|":                                {"inlined deleteKeysAt", nil},
+	"*macKeyHistory.forgetMACKeysForTheirKey|IsSliceInBounds|":                           {"inlined deleteKeysAt", nil},
+	"*Conversation.calcXb|IsSliceInBounds|":                                              {"inlined encrypt", nil},
+	"*Conversation.dhCommitMessage|IsSliceInBounds|":                                     {"inlined encrypt", nil},
+	"*Conversation.sigMessage|IsSliceInBounds|":                                          {"inlined helper on own data", nil},
+	"*Conversation.fragment|IsSliceInBounds|":                                            {"inlined fragmentData", nil},
+	"sexp.peek|IsInBounds|":                                                              {"inlined bufio.Reader internals", nil},
+	"sexp.expect|IsInBounds|":                                                            {"inlined bufio.Reader internals", nil},
+	"initTLVHandlers|IsInBounds|*":                                                       {"constant indices 0..8 into the 9-element handler table", nil},
+}
+
+var genericBounds = []struct {
+	kind   string
+	re     *regexp.Regexp
+	reason string
+}{
+	{"IsInBounds", regexp.MustCompile(`^(bytes|strings)\.Split\([^()]*\)\[0\]$`), "Split (n = -1) returns at least one element"},
 }
 
 func (a *An) boundsTable(rule string) {
@@ -162,6 +170,14 @@ func (a *An) boundsTable(rule string) {
 		e, ok := boundsTable[key]
 		if !ok {
 			e, ok = boundsTable[s.Func+"|"+s.Kind+"|*"]
+		}
+		if !ok {
+			// patterns that are in range wherever they occur
+			for _, g := range genericBounds {
+				if g.kind == s.Kind && g.re.MatchString(s.Expr) {
+					e, ok = boundsEntry{g.reason, nil}, true
+				}
+			}
 		}
 		seen[key]++
 		okey := key
@@ -333,15 +349,15 @@ func (a *An) allocSizes(rule string) {
 // ---- narrowing conversions -----------------------------------------------------------------------
 
 var narrowTable = map[string]string{
-	"AppendData|uint32(len($r))":  "lengths of in-memory byte slices handed to the serialiser are far below 4 GiB (assumption A-len32)",
+	"AppendData|uint32(len($r))":   "lengths of in-memory byte slices handed to the serialiser are far below 4 GiB (assumption A-len32)",
 	"genSMPTLV|uint32(len($mpis))": "at most 11 MPIs",
 	"genSMPTLV|uint16(len(AppendMPIs(AppendWord(new([1000]byte)[:0], uint32(len($mpis))), $mpis)))": "at most 11 residues mod the 1536-bit p: below 2.2 KiB",
-	"(plainDataMsg).pad|uint16((256 - (((len(plainDataMsg.message) + 4) + 1) % 256)))":               "1..256 by construction",
-	"bytesToUint16|uint16(strconv.ParseUint($d, 10, 16)#0)":                                          "ParseUint with bitSize 16 returns a value that fits",
-	"parseItag|uint32(strconv.ParseUint($s, 16, 32)#0)":                                              "ParseUint with bitSize 32 returns a value that fits",
-	"messageHandlerForTLV|uint16(len(global:tlvHandlers))":                                           "the handler table has 9 entries",
-	"(smp1Message).tlv|uint16(len(new(tlv).tlvValue))":                                               "KNOWN D20: a question of 64 KiB or more wraps the TLV length (length no longer matches content)",
-	"(*Conversation).UseExtraSymmetricKey|uint16(len($usageData))":                                   "KNOWN D20: usage data of 64 KiB or more wraps the TLV length (length no longer matches content)",
+	"(plainDataMsg).pad|uint16((256 - (((len(plainDataMsg.message) + 4) + 1) % 256)))":              "1..256 by construction",
+	"bytesToUint16|uint16(strconv.ParseUint($d, 10, 16)#0)":                                         "ParseUint with bitSize 16 returns a value that fits",
+	"parseItag|uint32(strconv.ParseUint($s, 16, 32)#0)":                                             "ParseUint with bitSize 32 returns a value that fits",
+	"messageHandlerForTLV|uint16(len(global:tlvHandlers))":                                          "the handler table has 9 entries",
+	"(smp1Message).tlv|uint16(len(new(tlv).tlvValue))":                                              "KNOWN D20: a question of 64 KiB or more wraps the TLV length (length no longer matches content)",
+	"(*Conversation).UseExtraSymmetricKey|uint16(len($usageData))":                                  "KNOWN D20: usage data of 64 KiB or more wraps the TLV length (length no longer matches content)",
 }
 
 var archIntBits = 64
@@ -584,7 +600,11 @@ func (a *An) sexpDiscipline(rule string) {
 		}
 	}
 	// the continue-signals of the helpers imply that a list start was consumed
-	for _, spec := range []struct{ fn string; idx int; val string }{{"readAccount", 2, "false"}, {"readParameter", 2, "false"}} {
+	for _, spec := range []struct {
+		fn  string
+		idx int
+		val string
+	}{{"readAccount", 2, "false"}, {"readParameter", 2, "false"}} {
 		fn := a.MustFn(spec.fn)
 		if fn == nil {
 			continue
